@@ -6,7 +6,7 @@ passthrough, R4 only the two names, R5 null-flow, R6 exits, R7 native path.
 import ast
 
 from sa import fd
-from sa.model import AnalysisError, walk_no_nested, norm, stmt_of
+from sa.model import AnalysisError, walk_no_nested, norm, stmt_of, call_name
 from sa.util import fact_call, module_resolver, self_calls, fact_atom, cmp_parts, const_value, bound_arg
 from sa.consteval import TOP
 from .roles import ClientRoles
@@ -55,6 +55,20 @@ def rename_rules(ctx, R, only=None):
                     raise AnalysisError("R", "emulation helper %s is not called with (old, new)" % g.qualname)
                 f, helper_call = g, c
                 break
+    # steps collected as (method, arguments) pairs and run through a LIST inside all()/any(): every step is executed, whatever the
+    # earlier ones answered (a list is built completely before all() looks at it; a generator would stop at the first refusal)
+    stepnames = {"putscript", "setactive", "deletescript"}
+    collected = [a for a in walk_no_nested(f.node) if isinstance(a, ast.Attribute) and a.attr in stepnames and isinstance(a.value, ast.Name)
+                 and a.value.id == f.params[0] and not (isinstance(getattr(a, "_parent", None), ast.Call) and a._parent.func is a)]
+    if collected:
+        eager = [c for c in walk_no_nested(f.node) if isinstance(c, ast.Call) and call_name(c) in ("all", "any") and c.args
+                 and isinstance(c.args[0], (ast.ListComp, ast.List))]
+        if eager:
+            ctx.rule("R1", "deletescript(old) only on the success edge of putscript(new, ...) (and of setactive(new) when old was active)")
+            ctx.violation("R1", f, "steps-run-eagerly", "the copy / activate / delete steps are collected (%s ...) and run by %s over a list: the "
+                          "list is built completely, so deletescript(old) is sent even when putscript(new) was refused" % (
+                              norm(collected[0]), norm(eager[0])[:40]), node=eager[0],
+                          witness="server answers NO to PUTSCRIPT (quota): the old script is deleted and nothing replaces it")
     cfg = ctx.cfg(f)
     params = f.params[1:]
     if len(params) < 2:
